@@ -83,7 +83,7 @@ func decodeBody(r *HTTPReq) (map[SeriesKey]*Obs, int) {
 
 func (c15) Run(e *Env) {
 	e.ProbeDecl("dispatcher-parked-across-flush-begin", "retry-after-5xx", "retry-after-conn-error", "retry-after-lost-response", "abandoned-after-window", "abandoned-retries-off",
-		"slow-response-client-timeout", "several-bodies-per-flush", "max-requests-saturated", "manual-flush", "ticker-flush", "flush-parked-after-drain", "4xx", "non-utf8-string", "header-tag-repeated", "pipelined-manual-flush", "shutdown-with-data-pending")
+		"slow-response-client-timeout", "several-bodies-per-flush", "max-requests-saturated", "manual-flush", "ticker-flush", "flush-parked-after-drain", "4xx", "non-utf8-string", "header-tag-repeated", "pipelined-manual-flush", "shutdown-with-data-pending", "shutdown-with-retry-pending")
 	slots := e.Range(1, 4)
 	maxReq := e.Range(1, 4)
 	concMerge := e.Range(1, 3)
@@ -254,7 +254,7 @@ func (c15) Run(e *Env) {
 	dispatchN := 0
 	var lastRetryable time.Time
 
-	services := []string{"", "a", "b", "c"}
+	services := []string{"", "a", "b", "c", "db:5432", "db:5433"} // a tag value may hold colons itself
 	absorbReqs := func() {
 		// requests that arrived within one step come from goroutines the runtime ordered (and from a Go
 		// map walk over the per-header split): canonicalise their order by content
@@ -842,6 +842,7 @@ func (c15) Run(e *Env) {
 		e.Event("shutdown")
 		flushBegins = append(flushBegins, e.NextSeq())
 		cancel()
+		refuseOnce := window >= 10*time.Second && e.Bool() // the last body's first attempt fails: it is waiting for its retry while the forwarder stops
 		for i := 0; ; i++ {
 			e.Settle()
 			absorbReqs()
@@ -849,6 +850,16 @@ func (c15) Run(e *Env) {
 			progressed := false
 			for _, p := range fab.Gate.Parked() {
 				r := p.Arg.(*HTTPReq)
+				if refuseOnce {
+					refuseOnce = false
+					e.Fault("http-5xx")
+					e.Probe("shutdown-with-retry-pending")
+					e.Event("shutdown: refuse %s once", r.Path)
+					fab.Gate.Release(p, HTTPOutcome{Kind: "status", Status: 503})
+					progressed = true
+					e.Settle()
+					continue
+				}
 				bodies[r.Path+r.BodyHash].success = true
 				fab.Gate.Release(p, HTTPOutcome{Kind: "serve"})
 				progressed = true
@@ -860,7 +871,7 @@ func (c15) Run(e *Env) {
 			if runReturned.Load() {
 				break
 			}
-			if i > 50 {
+			if i > 150 {
 				e.Failf("C15/shutdown-wedged", "the forwarder has not stopped %d steps after its context ended although every request is answered at once", i)
 			}
 			time.Sleep(200 * time.Millisecond)
